@@ -39,6 +39,9 @@ struct Rec {
     clock_step: f64,
     fail_write_after: Option<u64>,
     panic: Option<Value>,
+    /// C10 time clause: when (ms after the limits were created) each write happened
+    t0: Option<Instant>,
+    write_ms: Vec<f64>,
 }
 
 thread_local! {
@@ -57,6 +60,11 @@ impl Write for RecWriter {
             if let Some(n) = r.fail_write_after {
                 if r.writes > n {
                     return Err(std::io::Error::new(std::io::ErrorKind::Other, "injected"));
+                }
+            }
+            if let Some(t0) = r.t0 {
+                if r.write_ms.len() < 200_000 {
+                    r.write_ms.push(t0.elapsed().as_secs_f64() * 1000.0);
                 }
             }
             r.out.extend_from_slice(buf);
@@ -321,6 +329,12 @@ fn run_case(case: &Value) -> Value {
 
     // ---- instantiate
     let limits = limits_from(case);
+    if case["write_times"].as_bool().unwrap_or(false) {
+        rec(|r| {
+            r.t0 = Some(Instant::now());
+            r.write_ms.clear();
+        });
+    }
     let rt: RTCell<W, R, T> = limits.to_runtime(RecWriter, RecClock);
     xray::verif::reset(log_cap);
     let t1 = Instant::now();
@@ -526,6 +540,13 @@ fn run_case(case: &Value) -> Value {
 fn finish(obs: &mut Map<String, Value>, log_cap: usize) {
     if log_cap > 0 {
         obs.insert("events".into(), events_json());
+    }
+    let wt = rec(|r| if r.t0.is_some() { Some(std::mem::take(&mut r.write_ms)) } else { None });
+    if let Some(wt) = wt {
+        let n = wt.len();
+        let head: Vec<f64> = wt.iter().take(20).cloned().collect();
+        let tail: Vec<f64> = wt.iter().skip(n.saturating_sub(200)).cloned().collect();
+        obs.insert("write_times".into(), json!({"n": n, "head": head, "tail": tail}));
     }
 }
 
